@@ -1,4 +1,5 @@
 import RsModel.Model.Stream
+import RsModel.Lemmas.AttrSM
 /-!
 # C08 — a SourceMapSource reproduces the attribution of the map it was given
 (declared tables and `sourceRoot` handling; the splitter attribution itself is tied by correspondence)
@@ -47,5 +48,33 @@ theorem c08_declared_names (m : SMap) :
 theorem c08_custom_source (t : Text) (m : SMap) (o : Opts) : streamDefault t (some m) o = streamSM t m o := rfl
 
 example : applyRoot (some [114]) [97] = [114, 47, 97] := by decide
+
+
+/-- **C08, columns = true**: streaming a SourceMapSource (no inner map) built from an ASCII text `T` and a map `M` whose segments are
+sorted and lie inside `T` attributes *every byte* of `T` — through the `orig` of the chunk that covers it — to exactly the original
+location (source index, line, column, name index) that looking the byte's position up in `M` gives ("greatest segment at or before
+the position on that line"; unmapped 1-field segments, several segments per line or per position, empty lines, maps covering only
+part of `T` and zero-width segments at the end of a line included).  Together with `c08_declared_sources` / `c08_declared_names`
+(the indices are announced exactly as `M` declares them, `sourceRoot` applied) this is the attribution clause of the property. -/
+theorem c08_attribution (t : Text) (sm : SMap) (ha : IsAscii t) (hl : t.length ≤ USIZE_MAX) (hsorted : sortedFrom 1 0 (decode sm.mappings))
+    (hseg : ∀ m ∈ decode sm.mappings, SegOK (splitLines t) (adv startPos t).line (adv startPos t).col m) :
+    attrOf (streamSM t sm ⟨true, false⟩).evs = attrFrom (decode sm.mappings) startPos t :=
+  streamSMFull_attr t sm ha hl hsorted hseg
+
+/-- non-vacuity: `"ab;cd\nef"` with `AAAA,GAAG;AACA`: the hypotheses hold and the middle segment attributes `cd` -/
+example : let t : Text := [97, 98, 59, 99, 100, 10, 101, 102]
+    sortedFrom 1 0 (decode [65, 65, 65, 65, 44, 71, 65, 65, 71, 59, 65, 65, 67, 65])
+    ∧ (∀ m ∈ decode [65, 65, 65, 65, 44, 71, 65, 65, 71, 59, 65, 65, 67, 65], SegOK (splitLines t) (adv startPos t).line (adv startPos t).col m)
+    ∧ attrFrom (decode [65, 65, 65, 65, 44, 71, 65, 65, 71, 59, 65, 65, 67, 65]) startPos t
+        = [some ⟨0, 1, 0, none⟩, some ⟨0, 1, 0, none⟩, some ⟨0, 1, 0, none⟩, some ⟨0, 1, 3, none⟩, some ⟨0, 1, 3, none⟩, some ⟨0, 1, 3, none⟩,
+           some ⟨0, 2, 3, none⟩, some ⟨0, 2, 3, none⟩] := by
+  intro t
+  have hdec : decode [65, 65, 65, 65, 44, 71, 65, 65, 71, 59, 65, 65, 67, 65]
+      = [⟨1, 0, some ⟨0, 1, 0, none⟩⟩, ⟨1, 3, some ⟨0, 1, 3, none⟩⟩, ⟨2, 0, some ⟨0, 2, 3, none⟩⟩] := by decide
+  rw [hdec]
+  refine ⟨by simp [sortedFrom], ?_, by decide⟩
+  intro m hm
+  simp only [List.mem_cons, List.not_mem_nil, or_false] at hm
+  rcases hm with rfl | rfl | rfl <;> exact ⟨⟨by decide, fun _ => by decide⟩, fun _ => by decide, by decide⟩
 
 end Rs
